@@ -81,7 +81,10 @@ PROPS = {
             "assumptions": LOCK_ASSUME + ["C07 cases use guard-level schedules only (switches between operations or when a call blocks), so that a hang, "
                                           "a busy lock at the end or an exclusion hit is attributable to guard ownership rather than to a protocol race"]},
     "C08": {"kinds": ["RACE"], "stages": lock_stages("C08", 2500, 40000), "assumptions": LOCK_ASSUME},
-    "C09": {"kinds": ["VERSION-VALUE"], "stages": lock_stages("C09", 2500, 40000), "assumptions": LOCK_ASSUME},
+    "C09": {"kinds": ["VERSION-VALUE"], "differential_kinds": ["STUCK", "FINAL_BUSY", "EXCLUSION", "EXCLUSION-CONV", "TORN"],
+            "stages": lock_stages("C09", 2500, 40000),
+            "assumptions": LOCK_ASSUME + ["'no version value disturbs the lock-mode state' is decided metamorphically: a hang / busy lock / exclusion hit in a C09 case "
+                                          "counts for C09 only if the same program and schedule with every SetVersion removed and initial version 0 is clean"]},
     "C10": {"kinds": ["GAP", "EXCLUSION-CONV"], "stages": lock_stages("C10", 2500, 40000), "assumptions": LOCK_ASSUME},
     "C11": {"kinds": ["ORDER"], "stages": lock_stages("C11", 2500, 40000), "assumptions": LOCK_ASSUME},
     "C12": {"kinds": ["LEAK", "NODE_BOUND", "CRASH-UAF"], "stages": lock_stages("C12", 2500, 40000), "assumptions": LOCK_ASSUME},
@@ -94,7 +97,7 @@ PROPS = {
             "stages": thread_stages("C16", [2, 3, 4], 300, [2, 3, 4, 8], 4000), "assumptions": THREAD_ASSUME},
     "C17": {"kinds": ["LIST-OWNER", "LIST-ORDER", "LIST-PREV", "LIST-STABLE", "GUARD-EPOCH", "GUARD-MOVE", "CRASH-UAF", "CRASH"],
             "stages": thread_stages("C17", [2, 3, 4], 300, [2, 3, 4, 8], 4000), "assumptions": THREAD_ASSUME},
-    "C13": {"kinds": ["PREP-STACK", "PREP-X", "PREP-VER", "PREP-VERIFY", "CVERSION-RESULT", "CVERSION-REFRESH", "CVERSION-X", "CSNAPSHOT"],
+    "C13": {"kinds": ["PREP-STACK", "PREP-PHANTOM", "PREP-X", "PREP-VER", "PREP-VERIFY", "CVERSION-RESULT", "CVERSION-REFRESH", "CVERSION-X", "CSNAPSHOT"],
             "stages": lock_stages("C13", 2500, 40000), "assumptions": LOCK_ASSUME},
 }
 
